@@ -291,6 +291,22 @@ fn chk_fault(kind: &str, mode: &str, data: &[u8], args: &[&str]) -> Result<(), S
 }
 /// fail-stop during lookups: once the stream fails, every lookup of a reader-backed tile fails — the
 /// first one, a retry of the same tile, and lookups of other tiles (incl. ones sharing its bytes)
+/// scenarios whose fault-free run may itself be an error (hostile input): under a fault from any operation on, the call
+/// still returns (a value or an error) - it never panics
+fn chk_fault_nopanic(kind: &str, mode: &str, data: &[u8], args: &[&str]) -> Result<(), String> {
+    let (r0, c0) = scenario(kind, mode, args, Core::new(data.to_vec(), 0));
+    r0.map_err(|e| format!("{e} in the fault-free run"))?;
+    for k in 0..c0.ops {
+        for fk in [0usize, 1] {
+            let mut core = Core::new(data.to_vec(), 0);
+            core.fail_from = Some(k);
+            core.fail_kind = fk;
+            let (r, _) = scenario(kind, mode, args, core);
+            r.map_err(|e| format!("{e} when the stream fails from operation {k} of {} on ({})", c0.ops, c0_event_at(&c0, k)))?;
+        }
+    }
+    Ok(())
+}
 fn chk_fault_lookup(mode: &str, data: &[u8]) -> Result<(), String> {
     let v = spec::parse(data, false).map_err(|e| format!("harness: {e}"))?;
     let all = spec::all_tiles(&v, 1_000_000)?;
